@@ -6,6 +6,9 @@ import SciVerif.Lemmas.C17q
 import SciVerif.Lemmas.C17i
 import SciVerif.Lemmas.C17j
 import SciVerif.Lemmas.C17k
+import SciVerif.Lemmas.C17l
+import SciVerif.Lemmas.C17m
+import SciVerif.Lemmas.C17n
 import SciVerif.Generated.C17Units
 
 /-!
@@ -647,6 +650,213 @@ example : runNB unitTable Env.empty
      .base (.stmt 2 ['b'] (.defn [['g'], ['b']] .float [] (.inj none (.exact [['a']]) []) none)),
      .imp 2 [] [['g']] none .all,
      .base (.prop [['g'], ['g'], ['b']] .constant)] = true := by
+  decide +kernel
+
+/-- The invariant of the refinement theorems as a computation: `invB` (a `Bool`-valued function of
+    the unit table and the environment: every stored node and every node of every remote source
+    is typed, holds a value that its own cast leaves unchanged, has no pending slice, carries a
+    unit of the table — none on str/bool/int) is sound AND complete for `Inv`.  Equality of values
+    is decided by the structural test `valEqB` (`Val` is a nested inductive).  With it `Inv` of the
+    initial environment of a run — the base environment `DIP(base)` starts from, the parsed remote
+    sources — is evaluated by the driver for every generated program instead of being assumed. -/
+theorem C17_inv_decidable (tbl : UnitTable) (env : Env) : invB tbl env = true ↔ Inv tbl env :=
+  invB_iff tbl env
+
+/-- Proved part, nested programs from ANY initial environment, no `Prop`-valued hypothesis left
+    about the environment or the program: if the computation `invB` accepts the initial environment
+    and the computation `runNB` accepts the program there, then whenever the specification accepts
+    the statements, the main loop accepts the lines, ends in the abstraction of the specification's
+    result, and `invB` accepts the final environment (so the result can serve as the base of a
+    further program).  Still missing from `C17_refinement_statement`: as for
+    `C17_refinement_nested_imports_partial` (declared nodes — `invB` refuses an environment that
+    holds one —, hosts by reference, imports inside `@case` branches). -/
+theorem C17_refinement_env_checked_partial (tbl : UnitTable) (lines : List NLine) (items : List Item)
+    (env : Env) (s' : SEnv) (hinv : invB tbl env = true) (hchk : runNB tbl env lines = true)
+    (hc : lines.mapM NLine.item = some items)
+    (h : sRun tbl (absEnv env) (lines.filterMap NLine.stmt?) = .ok s') :
+    ∃ env', items.foldlM (step tbl) env = .ok env' ∧ absEnv env' = s' ∧ invB tbl env' = true := by
+  obtain ⟨env', h1, h2, h3⟩ := refine_runN tbl lines items env s' ((invB_iff tbl env).1 hinv)
+    (runNB_sound tbl env lines hchk) hc h
+  exact ⟨env', h1, h2, (invB_iff tbl env').2 h3⟩
+
+/-- `invB` accepts a non-trivial environment (a float with unit, a 2-element integer array, a
+    remote source holding a string) and, there, `runNB` accepts a program that injects from the
+    source; `invB` refuses a declared node (no value), a value that does not conform to the
+    declared type, and a unit on a string -/
+example : let env : Env := { Env.empty with
+      nodes := [{ blank ['a'] .float with value := some (.num 3), unitsRaw := some ['m'] },
+                { blank ['v'] .int with dims := [(some 2, some 2)], value := some (.arr [.num 1, .num 2]) }],
+      sources := [(['s'], [{ blank ['t'] .str with value := some (.str ['x']) }])] }
+    invB unitTable env = true ∧
+    runNB unitTable env [.base (.stmt 0 ['b'] (.defn [['b']] .str [] (.inj (some ['s']) (.exact [['t']]) []) none))] = true ∧
+    invB unitTable { env with nodes := [blank ['d'] .float] } = false ∧
+    invB unitTable { env with nodes := [{ blank ['d'] .float with value := some (.str ['x']) }] } = false ∧
+    invB unitTable { env with nodes := [{ blank ['d'] .str with value := some (.str ['x']), unitsRaw := some ['m'] }] } = false := by
+  decide +kernel
+
+/-- Proved part, a further layer of the code inside the theorem: not the bare main loop
+    (`foldlM step`) but the functions the correspondence runs against `DIP.parse` — `parseC` (main
+    loop WITH the `@case` branch state, then the final validation loop `validate`) and `parse`.
+    For an initial environment accepted by `invB` and a program accepted by `runNB` (both
+    computations), whenever the specification accepts the statements: `parseC` and `parse` return
+    the same environment, its abstraction is the specification's result, and `invB` accepts it.
+    (The lines of `NLine` are never clause lines, so the branch state stays empty; `Inv` of the
+    result makes the validation loop pass: no stored node is left without value.)  Still missing
+    from `C17_refinement_statement`: as for `C17_refinement_nested_imports_partial`. -/
+theorem C17_refinement_parse_partial (tbl : UnitTable) (lines : List NLine) (items : List Item)
+    (env : Env) (s' : SEnv) (hinv : invB tbl env = true) (hchk : runNB tbl env lines = true)
+    (hc : lines.mapM NLine.item = some items)
+    (h : sRun tbl (absEnv env) (lines.filterMap NLine.stmt?) = .ok s') :
+    ∃ env', parseC tbl env items = .ok env' ∧ parse tbl env items = .ok env' ∧ absEnv env' = s' ∧
+      invB tbl env' = true := by
+  obtain ⟨env', h1, h2, h3, h4⟩ := refine_parse tbl lines items env s' ((invB_iff tbl env).1 hinv) hchk hc h
+  exact ⟨env', h1, h2, h3, (invB_iff tbl env').2 h4⟩
+
+/-- Proved part, `DIP(base)`: a base text parsed first (`parseC` from `env`, giving `benv`), then
+    the main text parsed on top of `benv`.  All hypotheses about environment and programs are
+    computations: `invB` on the initial environment, `runNB` on the base text there, and `runNB` on
+    the main text in the environment the base parse returns (`afterB`).  Whenever the specification
+    accepts the base statements (result `s1`) and then the main statements from `s1` (result `s2`),
+    both parses succeed, the base environment abstracts to `s1`, the final one to `s2`, and `invB`
+    accepts it.  Missing: as for `C17_refinement_nested_imports_partial`; the frame property (base
+    object unchanged) is `C17_base_unchanged`. -/
+theorem C17_refinement_on_base_partial (tbl : UnitTable) (base main : List NLine) (bitems mitems : List Item)
+    (env : Env) (s1 s2 : SEnv) (hinv : invB tbl env = true)
+    (hb : runNB tbl env base = true) (hcb : base.mapM NLine.item = some bitems)
+    (h1 : sRun tbl (absEnv env) (base.filterMap NLine.stmt?) = .ok s1)
+    (hm : afterB tbl env bitems (fun benv => runNB tbl benv main) = true)
+    (hcm : main.mapM NLine.item = some mitems)
+    (h2 : sRun tbl s1 (main.filterMap NLine.stmt?) = .ok s2) :
+    ∃ benv env', parseC tbl env bitems = .ok benv ∧ absEnv benv = s1 ∧ parseC tbl benv mitems = .ok env' ∧
+      absEnv env' = s2 ∧ invB tbl env' = true := by
+  obtain ⟨e1, e2, a, b, c, d, e⟩ := refine_two_stage tbl base main bitems mitems env s1 s2 id id
+    (fun e he => ⟨he, rfl⟩) ((invB_iff tbl env).1 hinv) hb hcb h1 hm hcm h2
+  exact ⟨e1, e2, a, b, c, d, (invB_iff tbl e2).2 e⟩
+
+/-- Proved part, remote files: the text of a remote file is parsed on its own from `env` (the
+    sources installed so far), its nodes and custom units are installed as source `name`
+    (`withSource`; on the specification side `sWithSource`), then the main text is parsed.  Same
+    form as `C17_refinement_on_base_partial`: only computations as hypotheses; both parses succeed
+    and the final environment abstracts to the specification's.  `withSource` keeps `Inv` and
+    commutes with the abstraction, so the step can be iterated for any number of files. -/
+theorem C17_refinement_with_source_partial (tbl : UnitTable) (name : Str) (src main : List NLine)
+    (sitems mitems : List Item) (env : Env) (sS s' : SEnv) (hinv : invB tbl env = true)
+    (hs : runNB tbl env src = true) (hcs : src.mapM NLine.item = some sitems)
+    (h1 : sRun tbl (absEnv env) (src.filterMap NLine.stmt?) = .ok sS)
+    (hm : afterB tbl env sitems (fun envS => runNB tbl (withSource env name envS) main) = true)
+    (hcm : main.mapM NLine.item = some mitems)
+    (h2 : sRun tbl (sWithSource (absEnv env) name sS) (main.filterMap NLine.stmt?) = .ok s') :
+    ∃ envS env', parseC tbl env sitems = .ok envS ∧ absEnv envS = sS ∧
+      parseC tbl (withSource env name envS) mitems = .ok env' ∧ absEnv env' = s' ∧ invB tbl env' = true := by
+  have hi := (invB_iff tbl env).1 hinv
+  obtain ⟨e1, e2, a, b, c, d, e⟩ := refine_two_stage tbl src main sitems mitems env sS s'
+    (fun e => withSource env name e) (fun s => sWithSource (absEnv env) name s)
+    (fun e he => ⟨inv_withSource tbl env e name hi he, abs_withSource env e name⟩) hi hs hcs h1 hm hcm h2
+  exact ⟨e1, e2, a, b, c, d, (invB_iff tbl e2).2 e⟩
+
+/-- the assembly of the initial environment keeps the invariant and commutes with the abstraction -/
+theorem C17_inv_with_source (tbl : UnitTable) (env envS : Env) (name : Str) (h : Inv tbl env) (hS : Inv tbl envS) :
+    Inv tbl (withSource env name envS) ∧
+    absEnv (withSource env name envS) = sWithSource (absEnv env) name (absEnv envS) :=
+  ⟨inv_withSource tbl env envS name h hS, abs_withSource env envS name⟩
+
+/-- the computational hypotheses of the two staged theorems hold for non-trivial instances: base
+    `a float = 3 m` then main `b float = {?a}` / `a = {?b} cm`; remote file `t str = "x"` installed
+    as `s`, then main `b str = {s?t}`; the specification accepts both stages -/
+example :
+    let base : List NLine := [.base (.stmt 0 ['a'] (.defn [['a']] .float [] (.lit (.num 3)) (some ['m'])))]
+    let main : List NLine := [.base (.stmt 0 ['b'] (.defn [['b']] .float [] (.inj none (.exact [['a']]) []) none)),
+                              .base (.stmt 0 ['a'] (.modl [['a']] (.inj none (.exact [['b']]) []) (some ['c', 'm'])))]
+    let src : List NLine := [.base (.stmt 0 ['t'] (.defn [['t']] .str [] (.lit (.str ['x'])) none))]
+    let main2 : List NLine := [.base (.stmt 0 ['b'] (.defn [['b']] .str [] (.inj (some ['s']) (.exact [['t']]) []) none))]
+    invB unitTable Env.empty = true ∧ runNB unitTable Env.empty base = true ∧
+    (∃ bitems, base.mapM NLine.item = some bitems ∧
+      afterB unitTable Env.empty bitems (fun benv => runNB unitTable benv main) = true ∧
+      (parseC unitTable Env.empty bitems).toOption.isSome = true) ∧
+    (match sRun unitTable (absEnv Env.empty) (base.filterMap NLine.stmt?) with
+     | .ok s1 => (sRun unitTable s1 (main.filterMap NLine.stmt?)).toOption.isSome
+     | .error _ => false) = true ∧
+    runNB unitTable Env.empty src = true ∧
+    (∃ sitems, src.mapM NLine.item = some sitems ∧
+      afterB unitTable Env.empty sitems (fun envS => runNB unitTable (withSource Env.empty ['s'] envS) main2) = true ∧
+      (parseC unitTable Env.empty sitems).toOption.isSome = true) ∧
+    (match sRun unitTable (absEnv Env.empty) (src.filterMap NLine.stmt?) with
+     | .ok sS => (sRun unitTable (sWithSource (absEnv Env.empty) ['s'] sS) (main2.filterMap NLine.stmt?)).toOption.isSome
+     | .error _ => false) = true := by
+  refine ⟨by decide +kernel, by decide +kernel, ⟨_, rfl, by decide +kernel, by decide +kernel⟩, by decide +kernel,
+    by decide +kernel, ⟨_, rfl, by decide +kernel, by decide +kernel⟩, by decide +kernel⟩
+
+/-- DECLARED nodes inside the invariant.  `InvD` weakens `Inv`: a stored node of the main
+    environment may hold no value (`a float` without `=`); if it holds one, the value conforms.
+    `Inv` implies `InvD`, and `InvD` of an environment whose nodes all hold a value is `Inv`
+    (so the result of a declare-then-assign program can serve the other refinement theorems).
+    `invDB` is `InvD` as a computation (sound and complete). -/
+theorem C17_declared_invariant (tbl : UnitTable) (env : Env) :
+    (Inv tbl env → InvD tbl env) ∧
+    (InvD tbl env → (∀ n ∈ env.nodes, n.value.isSome = true) → Inv tbl env) ∧
+    (invDB tbl env = true ↔ InvD tbl env) :=
+  ⟨inv_invD, invD_inv, invDB_iff tbl env⟩
+
+/-- Step refinement for the statements that create and fill declared nodes, from ANY environment
+    with the weak invariant `InvD` (declared nodes may be present): a declaration `path kw[dims] unit`
+    (line record `declNode`: no raw value, flagged to-be-defined), a definition with a literal
+    value, a modification with a literal value — which may address a node that holds no value yet
+    (`modify_value` casts the new value by the target's type and dimension and converts it into
+    the target's unit; the old value is not looked at).  Whenever the specification accepts the
+    statement, the main loop accepts its line, the abstraction of the new environment is the
+    specification's, and `InvD` holds again. -/
+theorem C17_refinement_declared_step (tbl : UnitTable) (env : Env) (hinv : InvD tbl env) (stmt : SStmt)
+    (item : Item) (s' : SEnv) (hfrag : LitFrag stmt) (hc : concD stmt = some item)
+    (h : sStep tbl (absEnv env) stmt = .ok s') :
+    ∃ env', step tbl env item = .ok env' ∧ absEnv env' = s' ∧ InvD tbl env' :=
+  refine_stepD tbl env hinv stmt item s' hfrag hc h
+
+/-- Proved part, programs with declared nodes, through the whole parse.  Hypotheses about
+    environment and program are computations (`invDB`, `litFragB`: flat lines — declarations,
+    literal definitions, literal modifications —, well-formed paths, typed keywords, integers
+    without unit).  Whenever the specification accepts the statements (result `s'`): the main loop
+    accepts the lines and ends in `env'` with `absEnv env' = s'` and `invDB`; `parse` and `parseC`
+    (main loop with `@case` state + final validation) both equal `validate env'`; and if `s'` leaves
+    no node without value, the validation passes and the STRONG invariant `invB` holds for `env'`.
+    Missing from `C17_refinement_statement` for declared nodes: nested lines (hierarchy), values by
+    reference (an injection from a declared node is outside the specification; an import that
+    copies or lands on a declared node is not covered), property lines. -/
+theorem C17_refinement_declared_partial (tbl : UnitTable) (stmts : List SStmt) (items : List Item)
+    (env : Env) (s' : SEnv) (hinv : invDB tbl env = true) (hchk : stmts.all litFragB = true)
+    (hc : stmts.mapM concD = some items) (h : sRun tbl (absEnv env) stmts = .ok s') :
+    ∃ env', items.foldlM (step tbl) env = .ok env' ∧ absEnv env' = s' ∧ invDB tbl env' = true ∧
+      parse tbl env items = validate env' ∧ parseC tbl env items = validate env' ∧
+      ((∀ n ∈ s'.nodes, n.value.isSome = true) → validate env' = .ok env' ∧ invB tbl env' = true) := by
+  have hfrag : ∀ s ∈ stmts, LitFrag s := by
+    intro s hs
+    exact (litFragB_iff s).1 (List.all_eq_true.1 hchk s hs)
+  obtain ⟨env', h1, h2, h3, h4, h5, h6⟩ := refine_parseD tbl stmts items env s' ((invDB_iff tbl env).1 hinv) hfrag hc h
+  refine ⟨env', h1, h2, (invDB_iff tbl env').2 h3, h4, h5, ?_⟩
+  intro hv
+  exact ⟨(h6 hv).1, (invB_iff tbl env').2 (h6 hv).2⟩
+
+/-- the final validation loop of the model, exactly: it passes iff no to-be-defined node is left
+    without value -/
+theorem C17_validate_exact (env : Env) :
+    validate env = .ok env ↔ ∀ n ∈ env.nodes, n.defined = true → n.value.isSome = true :=
+  validate_ok_iff env
+
+/-- non-vacuity: from an environment that already holds a declared node `d bool` (refused by
+    `invB`, accepted by `invDB`), the program `a float m` / `b int = 2` / `a = 300 cm` / `d = true`
+    passes the checks, the specification accepts it and leaves every node with a value; after
+    `a float m` alone a node without value is left -/
+example :
+    let env : Env := { Env.empty with nodes := [{ blank ['d'] .bool with defined := true }] }
+    let stmts : List SStmt := [.decl [['a']] .float [] (some ['m']), .defn [['b']] .int [] (.lit (.num 2)) none,
+      .modl [['a']] (.lit (.num 300)) (some ['c', 'm']), .modl [['d']] (.lit (.bool true)) none]
+    invB unitTable env = false ∧ invDB unitTable env = true ∧ stmts.all litFragB = true ∧
+    (stmts.mapM concD).isSome = true ∧
+    (match sRun unitTable (absEnv env) stmts with
+     | .ok s' => s'.nodes.all (fun n => n.value.isSome)
+     | .error _ => false) = true ∧
+    (match sRun unitTable (absEnv env) (stmts.take 1) with
+     | .ok s' => s'.nodes.all (fun n => n.value.isSome)
+     | .error _ => true) = false := by
   decide +kernel
 
 /-- The case the import side condition of `InFrag` excludes, as a theorem of its own: when the
